@@ -132,6 +132,7 @@ func (ex *Exec) havocCall(fr *Frame, ins ssa.Instruction, fn *ssa.Function, sig 
 	if ex.dry != nil {
 		ex.dry.escaped = true
 	}
+	old := ex.st.snapshot()
 	if samePkg {
 		ex.note("call without contract (whole heap havocked): " + name)
 		ex.havocAllHeap(name)
@@ -145,10 +146,14 @@ func (ex *Exec) havocCall(fr *Frame, ins ssa.Instruction, fn *ssa.Function, sig 
 		}
 	}
 	rt := resultType(sig)
-	if rt == nil {
-		return nil
+	var res Val
+	if rt != nil {
+		res = ex.freshVal(rt, "ret|"+shortName(name))
 	}
-	return ex.freshVal(rt, "ret|"+shortName(name))
+	if fn != nil {
+		ex.callSiteAssumptions(fr, ins, relName(fn), args, res, old)
+	}
+	return res
 }
 
 func shortName(s string) string {
@@ -194,6 +199,20 @@ func (ex *Exec) unknownFuncValueCall(fr *Frame, ins ssa.Instruction, cc *ssa.Cal
 		if c := ex.prog.Types[fkey(named.Obj().Pkg().Path(), "functype "+named.Obj().Name())]; c != nil {
 			return ex.applyContractSig(fr, ins, c, nil, sig, args, nil, "functype "+named.Obj().Name())
 		}
+	} else if pkg := fr.fn.Package(); pkg != nil && pkg.Pkg != nil {
+		// unnamed function type: a functype block of the calling package whose named type has this very signature
+		for key, c := range ex.prog.Types {
+			if c.Kind != "functype" || !strings.HasPrefix(key, pkg.Pkg.Path()+"\x00") {
+				continue
+			}
+			obj := pkg.Pkg.Scope().Lookup(c.Name)
+			if obj == nil {
+				continue
+			}
+			if types.Identical(obj.Type().Underlying(), cc.Value.Type().Underlying()) {
+				return ex.applyContractSig(fr, ins, c, nil, sig, args, nil, "functype "+c.Name)
+			}
+		}
 	}
 	ex.note("call through a function value without contract (" + cc.Value.Name() + " of type " + types.TypeString(cc.Value.Type(), nil) + " in " + relName(fr.fn) + "): assumed to modify only memory directly referenced by its arguments")
 	if ex.dry != nil {
@@ -227,7 +246,7 @@ func (ex *Exec) invoke(fr *Frame, ins ssa.Instruction, cc *ssa.CallCommon, recv 
 			}
 		}
 	}
-	it := cc.Value.Type()
+	it := types.Unalias(cc.Value.Type())
 	if named, ok := it.(*types.Named); ok && named.Obj().Pkg() != nil && named.Obj().Pkg().Path() == "sync" && named.Obj().Name() == "Locker" {
 		// a Locker stored in the receiver (cond.L): the lock spec that declares `option via` for the receiver's type
 		if len(fr.fn.Params) > 0 {
@@ -423,7 +442,41 @@ func (ex *Exec) applyContractSig(fr *Frame, ins ssa.Instruction, c *Contract, fn
 		// postconditions that talk about the callee's locals say nothing to a caller
 		ex.assume(ex.softBool(en.E, env))
 	}
+	ex.callSiteAssumptions(fr, ins, cname, args, res, old)
 	return res
+}
+
+// callSiteAssumptions applies the trusted `callsite <callee> modifies/ensures` clauses of the function under
+// verification: what an opaque callee does at this site, stated over the caller's variables.
+func (ex *Exec) callSiteAssumptions(fr *Frame, ins ssa.Instruction, cname string, args []Val, res Val, old *Snapshot) {
+	if ex.contract == nil || fr.fn != ex.root {
+		return
+	}
+	mods, ens := ex.contract.CallSiteMods[cname], ex.contract.CallSiteEns[cname]
+	if len(mods) == 0 && len(ens) == 0 {
+		return
+	}
+	cenv := ex.envFor(fr, nil)
+	for j, a := range args {
+		cenv.vars[fmt.Sprintf("$%d", j)] = a
+	}
+	if res != nil {
+		cenv.vars["result"] = res
+		if tv, ok := res.(TupleV); ok {
+			for i, e := range tv.E {
+				cenv.vars[fmt.Sprintf("result%d", i)] = e
+			}
+		}
+	}
+	cenv.old = old
+	for _, m := range mods {
+		ex.note("assumed at the call of " + cname + " in " + relName(fr.fn) + ": modifies " + m.Text)
+		ex.havocTarget(m.E, cenv, cname)
+	}
+	for _, en := range ens {
+		ex.note("assumed at the call of " + cname + " in " + relName(fr.fn) + ": " + en.Text)
+		ex.assume(ex.evalBool(en.E, cenv))
+	}
 }
 
 // pureApp builds the uninterpreted application standing for a pure function's result.
